@@ -4,6 +4,7 @@ package main
 import (
 	"bytes"
 	"encoding/hex"
+	"net"
 	"reflect"
 	"strings"
 
@@ -341,6 +342,49 @@ func run(r *Rng, tier string, n int) {
 			st["truncated_rdata_pairs_checked"]++
 			if got := isDup(a, c); got != "ok:false" {
 				Viol("C20/wire/truncated-rdata-equals-zero-padded", "IsDuplicate="+got+" for two records from the wire whose RDATA octets differ ("+dns.TypeToString[t]+": "+Hx(rdata[:p])+" vs "+Hx(b2[13:o2])+")", map[string]string{"a": Hx(w), "b": Hx(b2[:o2])})
+			}
+		}
+	}
+	// SVCB / HTTPS parameters in any order: the comparison sorts both sides by key, so a record is a
+	// duplicate of itself, of its copy and of every permutation of its parameters, as either argument
+	{
+		mkv := func() []dns.SVCBKeyValue {
+			return []dns.SVCBKeyValue{
+				&dns.SVCBMandatory{Code: []dns.SVCBKey{dns.SVCB_ALPN}}, &dns.SVCBAlpn{Alpn: []string{"h2", "h3"}}, &dns.SVCBPort{Port: 8443},
+				&dns.SVCBIPv4Hint{Hint: []net.IP{{192, 0, 2, 1}}}, &dns.SVCBECHConfig{ECH: []byte{1, 2}}, &dns.SVCBLocal{KeyCode: 65400, Data: []byte("x")},
+			}
+		}
+		for k := 0; k < 24; k++ {
+			n := 2 + k%5
+			sorted := mkv()[:n]
+			perm := mkv()[:n]
+			switch k % 3 {
+			case 0: // descending
+				for i, j := 0, n-1; i < j; i, j = i+1, j-1 {
+					perm[i], perm[j] = perm[j], perm[i]
+				}
+			default:
+				for i := n - 1; i > 0; i-- {
+					j := r.Intn(i + 1)
+					perm[i], perm[j] = perm[j], perm[i]
+				}
+			}
+			mk := func(v []dns.SVCBKeyValue) dns.RR {
+				sv := dns.SVCB{Hdr: dns.RR_Header{Name: "s.example.", Rrtype: dns.TypeSVCB, Class: 1, Ttl: 7}, Priority: 1, Target: "t.example.", Value: v}
+				if k%2 == 0 {
+					sv.Hdr.Rrtype = dns.TypeHTTPS
+					return &dns.HTTPS{SVCB: sv}
+				}
+				return &sv
+			}
+			a, b := mk(sorted), mk(perm)
+			st["svcb_param_orders_checked"]++
+			for _, p := range [][2]dns.RR{{b, b}, {b, dns.Copy(b)}, {a, b}, {b, a}} {
+				got := isDup(p[0], p[1])
+				emit(p[0], p[1], got)
+				if got != "ok:true" {
+					Viol("C20/SVCB/parameter-order", "records that differ only in the order of their SVCB parameters: "+got, map[string]string{"a": p[0].String(), "b": p[1].String()})
+				}
 			}
 		}
 	}
